@@ -76,12 +76,22 @@ def parseDigits (radix : Nat) : Nat → Str → Option Nat
       let acc' := acc * radix + d
       if acc' < 2 ^ 32 then parseDigits radix acc' cs else none
 
-/-- `u32::from_str_radix`: optional leading `+`, at least one digit, no overflow. -/
+/-- `u32::from_str_radix` behind the "digits only" guard of `parse_content`: at least one
+    digit, no sign, no overflow. -/
 def parseU32 (radix : Nat) (s : Str) : Option Nat :=
   match s with
   | [] => none
-  | '+' :: rest => (match rest with | [] => none | _ => parseDigits radix 0 rest)
   | _ => parseDigits radix 0 s
+
+/-- The XML `Char` production (https://www.w3.org/TR/xml/#NT-Char), as the `matches!` in
+    `parse_content` spells it. -/
+def isXmlCharCode (n : Nat) : Bool :=
+  n == 0x9 || n == 0xA || n == 0xD || (0x20 ≤ n && n ≤ 0xD7FF) || (0xE000 ≤ n && n ≤ 0xFFFD) ||
+  (0x10000 ≤ n && n ≤ 0x10FFFF)
+
+/-- `char::from_u32(code).filter(is XML Char)`. -/
+def xmlCharOfNat? (n : Nat) : Option Char :=
+  if isXmlCharCode n then charOfNat? n else none
 
 /-- The `match entity.as_str()` arms of `parse_content`. -/
 def namedEntity (e : Str) : Option Char := namedEntities.lookup e
@@ -92,8 +102,8 @@ def decodeEntity (e : Str) : Option Char :=
   | '#' :: num =>
     match num with
     | [] => none
-    | 'x' :: hex => (parseU32 16 hex).bind charOfNat?
-    | _ => (parseU32 10 num).bind charOfNat?
+    | 'x' :: hex => (parseU32 16 hex).bind xmlCharOfNat?
+    | _ => (parseU32 10 num).bind xmlCharOfNat?
   | _ => namedEntity e
 
 /-- The string carried by `InvalidEntity` (the part after `#` for numeric references). -/
@@ -175,6 +185,7 @@ def serializeCdataGo : Nat → Str → Str
     else if c = '>' then
       if k = 2 then cdataSplit ++ serializeCdataGo 0 cs
       else List.replicate k ']' ++ ('>' :: serializeCdataGo 0 cs)
+    else if c = '\r' then List.replicate k ']' ++ (cdataCr ++ serializeCdataGo 0 cs)
     else List.replicate k ']' ++ (c :: serializeCdataGo 0 cs)
 
 /-- `serialize_cdata`. -/
@@ -184,13 +195,13 @@ def serializeCdata (s : Str) : Str := cdataOpen ++ serializeCdataGo 0 s
 def serializeTextHtml (s : Str) : Str := s.flatMap (escapeWith htmlTextEscapes)
 def serializeAttributeHtml (s : Str) : Str := s.flatMap (escapeWith htmlAttrEscapes)
 
-/-- `str::strip_prefix(' ').unwrap_or(value)`. -/
-def stripOnePrefix : Str → Str
-  | ' ' :: r => r
+/-- `str::trim_start_matches(' ')`. -/
+def trimSpacesStart : Str → Str
+  | ' ' :: r => trimSpacesStart r
   | s => s
 
-/-- `str::strip_suffix(' ').unwrap_or(value)`. -/
-def stripOneSuffix (s : Str) : Str := (stripOnePrefix s.reverse).reverse
+/-- `str::trim_matches(' ')`. -/
+def trimSpaces (s : Str) : Str := (trimSpacesStart (trimSpacesStart s).reverse).reverse
 
 /-- The collapsing loop of `normalize_xml_id`: `lastSpace` = `last_char_space`. -/
 def collapseSpaces : Bool → Str → Str
@@ -201,12 +212,13 @@ def collapseSpaces : Bool → Str → Str
     else c :: collapseSpaces false cs
 
 /-- `parse.rs normalize_xml_id`. -/
-def normalizeXmlId (s : Str) : Str := collapseSpaces false (stripOneSuffix (stripOnePrefix s))
+def normalizeXmlId (s : Str) : Str := collapseSpaces false (trimSpaces s)
 
 /-! ### Reading CDATA sections back (specification side, XML 1.0 §2.7)
 
-`inSection` reads section content up to the first `]]>`; `afterSection` expects either the end
-of the text or another `<![CDATA[`.  The result is the concatenation of the section contents. -/
+`inSection` reads section content up to the first `]]>`; `afterSection` expects the end of the
+text, another `<![CDATA[`, or the character reference `&#xD;` (a carriage return cannot be
+written inside a section: it would be read back as a line feed).  The result is the concatenation of the section contents. -/
 
 mutual
 def inSection : Str → Option Str
@@ -216,6 +228,7 @@ def inSection : Str → Option Str
 def afterSection : Str → Option Str
   | [] => some []
   | '<' :: '!' :: '[' :: 'C' :: 'D' :: 'A' :: 'T' :: 'A' :: '[' :: rest => inSection rest
+  | '&' :: '#' :: 'x' :: 'D' :: ';' :: rest => (afterSection rest).map ('\r' :: ·)
   | _ => none
 end
 
